@@ -29,6 +29,7 @@ type Query struct {
 	Output  string
 	Diag    []string
 	GroundModel string // candidate counter-model of the quantifier-free weakening
+	AnyOf   string // canary group: vacuous only if every member is refuted
 	Canary  bool // vacuity canary: goal is false and must NOT be proved
 }
 
@@ -43,6 +44,7 @@ type FuncCtx struct {
 	decls      *Decls
 	keySorts   map[string]string
 	refKeys    map[string]int
+	mapKeySort map[string]string
 	intElemKeys map[string]types.Type
 	opaques    map[string]*opaqueInfo
 	opaqueUsed map[string]bool
@@ -151,6 +153,28 @@ func splitGoal(g string) []string {
 				return out
 			}
 		}
+	case "forall":
+		// (forall (binders) body) with body possibly (! b :pattern ...): distribute over a conjunctive body
+		if len(args) == 2 {
+			body := args[1]
+			pat := ""
+			if bop, bargs := sexprArgs(body); bop == "!" && len(bargs) >= 1 {
+				body = bargs[0]
+				pat = " " + strings.Join(bargs[1:], " ")
+			}
+			sub := splitGoal(body)
+			if len(sub) > 1 {
+				var out []string
+				for _, x := range sub {
+					if pat != "" {
+						out = append(out, "(forall "+args[0]+" (! "+x+pat+"))")
+					} else {
+						out = append(out, "(forall "+args[0]+" "+x+")")
+					}
+				}
+				return out
+			}
+		}
 	}
 	return []string{g}
 }
@@ -200,7 +224,7 @@ func (e *Engine) verifyFunc(pkgPath, key string) (fx *FuncCtx, err error) {
 	if fc == nil {
 		return nil, fmt.Errorf("no contract for %s:%s", pkgPath, key)
 	}
-	fx = &FuncCtx{eng: e, fn: fn, fc: fc, pc: pc, key: key + e.tagSuffix, mode: fc.Mode, keySorts: map[string]string{}, refKeys: map[string]int{}, intElemKeys: map[string]types.Type{}, opaques: map[string]*opaqueInfo{}, opaqueUsed: map[string]bool{},
+	fx = &FuncCtx{eng: e, fn: fn, fc: fc, pc: pc, key: key + e.tagSuffix, mode: fc.Mode, keySorts: map[string]string{}, refKeys: map[string]int{}, mapKeySort: map[string]string{}, intElemKeys: map[string]types.Type{}, opaques: map[string]*opaqueInfo{}, opaqueUsed: map[string]bool{},
 		trusted: map[string]bool{}, reveal: map[string]bool{}, pkg: fn.Pkg.Pkg, paramVals: map[string]Val{}}
 	fx.decls = newDecls()
 	fx.ar = newArith(fx.mode, fx.decls)
@@ -1135,6 +1159,14 @@ func (fx *FuncCtx) execAlloc(st *State, in *ssa.Alloc) {
 		st.cells[in] = Val{T: t}
 		return
 	}
+	if at, ok := t.Underlying().(*types.Array); ok && in.Comment == "varargs" {
+		if st.vararg == nil {
+			st.vararg = map[ssa.Value][]Val{}
+		}
+		st.vararg[in] = make([]Val, at.Len())
+		st.regs[in] = Val{T: in.Type(), L: &Loc{Kind: LocVararg, Cell: in, T: t}}
+		return
+	}
 	if fx.allocIsObject(in) {
 		r := fx.newRef(st, "new$"+typeStr(t))
 		fx.zeroObject(st, t, r)
@@ -1265,6 +1297,17 @@ func (fx *FuncCtx) execIndexAddr(st *State, in *ssa.IndexAddr) {
 		st.assume(and(fx.lenCmp("<=", fx.lenNum(0), idx), fx.lenCmp("<", idx, x.C[2])))
 		l := &Loc{Kind: LocElem, Base: x.C[0], Idx: fx.lenOp("+", x.C[1], idx), T: xt.Elem()}
 		fx.set(st, in, Val{T: in.Type(), L: l})
+	case *types.Pointer:
+		if x.L != nil && x.L.Kind == LocVararg {
+			c, ok := in.Index.(*ssa.Const)
+			if !ok {
+				fx.failf("non-constant index into variadic argument array")
+			}
+			at := xt.Elem().Underlying().(*types.Array)
+			fx.set(st, in, Val{T: in.Type(), L: &Loc{Kind: LocVararg, Cell: x.L.Cell, Idx: fmt.Sprint(c.Int64()), T: at.Elem()}})
+			return
+		}
+		fx.failf("index address into %s", typeStr(in.X.Type()))
 	default:
 		fx.failf("index address into %s", typeStr(in.X.Type()))
 	}
@@ -1272,6 +1315,14 @@ func (fx *FuncCtx) execIndexAddr(st *State, in *ssa.IndexAddr) {
 
 func (fx *FuncCtx) execSlice(st *State, in *ssa.Slice) {
 	x := fx.val(st, in.X)
+	if x.L != nil && x.L.Kind == LocVararg && in.Low == nil && in.High == nil {
+		// the variadic pack keeps its element values (engine level); as a slice it is a fresh array of unknown content
+		n := int64(len(st.vararg[x.L.Cell]))
+		v := fx.makeSliceUnknown(st, in.Type(), fx.lenNum(n))
+		v.Tup = append([]Val(nil), st.vararg[x.L.Cell]...)
+		fx.set(st, in, v)
+		return
+	}
 	if _, ok := in.X.Type().Underlying().(*types.Slice); !ok {
 		fx.failf("slice of %s", typeStr(in.X.Type()))
 	}
@@ -1540,7 +1591,11 @@ func (fx *FuncCtx) makeInterface(st *State, it types.Type, x Val) Val {
 	tag := fx.eng.typeTag(x.T)
 	cs := fx.mode.comps(x.T)
 	if len(cs) == 1 && cs[0].kind == "ref" {
-		return Val{T: it, C: []string{tag, x.C[0]}, Fn: x.Fn, Bind: x.Bind}
+		b := x.Bind
+		if x.Fn == nil {
+			b = []Val{x}
+		}
+		return Val{T: it, C: []string{tag, x.C[0]}, Fn: x.Fn, Bind: b}
 	}
 	// box the value
 	r := fx.newRef(st, "box")
@@ -1548,7 +1603,7 @@ func (fx *FuncCtx) makeInterface(st *State, it types.Type, x Val) Val {
 		k := HeapKey{"BOX$" + sanitize(typeStr(x.T)) + c.suffix, "(Array Int " + c.sort + ")"}
 		fx.heapSet(st, k, sx("store", fx.heapGet(st.heap, k), r, x.C[i]))
 	}
-	return Val{T: it, C: []string{tag, r}}
+	return Val{T: it, C: []string{tag, r}, Bind: []Val{x}}
 }
 
 func (fx *FuncCtx) unbox(st *State, t types.Type, data string) Val {
@@ -1594,6 +1649,9 @@ func (fx *FuncCtx) execTypeAssert(st *State, in *ssa.TypeAssert) {
 // ---------------------------------------------------------------- return
 
 func (fx *FuncCtx) doReturn(st *State, in *ssa.Return) {
+	// reachability: at least one returning path of the function must be satisfiable
+	rq := &Query{Obl: strings.TrimPrefix(fx.pc.Path[len(modPath):]+"."+fx.key+"/vacuity[return]", "/"), Kind: "vacuity", Hyps: st.hyps.list(), Goal: "false", Pos: fx.posStr(in.Pos()), Canary: true, AnyOf: fx.key, Trail: strings.Join(st.trail, ","), fx: fx}
+	fx.queries = append(fx.queries, rq)
 	var results []Val
 	for _, r := range in.Results {
 		results = append(results, fx.val(st, r))
@@ -1650,7 +1708,7 @@ func (fx *FuncCtx) lockedAtEntry(key string) bool {
 
 // verifyEnv: an environment action (no Go body) must preserve the monitor invariants of its receiver type.
 func (e *Engine) verifyEnv(pc *PkgContracts, fc *FuncContract, key string) (fx *FuncCtx, err error) {
-	fx = &FuncCtx{eng: e, fc: fc, pc: pc, key: key, mode: fc.Mode, keySorts: map[string]string{}, refKeys: map[string]int{}, intElemKeys: map[string]types.Type{},
+	fx = &FuncCtx{eng: e, fc: fc, pc: pc, key: key, mode: fc.Mode, keySorts: map[string]string{}, refKeys: map[string]int{}, mapKeySort: map[string]string{}, intElemKeys: map[string]types.Type{},
 		opaques: map[string]*opaqueInfo{}, opaqueUsed: map[string]bool{}, trusted: map[string]bool{}, reveal: map[string]bool{}, pkg: e.typesPkg(pc.Path), paramVals: map[string]Val{}}
 	fx.decls = newDecls()
 	fx.ar = newArith(fx.mode, fx.decls)
